@@ -109,6 +109,13 @@ NUM_ATOMS = {
     "cnt": dict(vars_=["cnt"], fn=_col("cnt")),
     "`col 1`": dict(vars_=["col 1"], fn=_col("col 1"), name="col 1"),
     "x\u00b2": dict(vars_=["x\u00b2"], fn=_col("x\u00b2")),
+    "bl": dict(vars_=["bl"], fn=_col("bl")),
+    "ni": dict(vars_=["ni"], fn=_col("ni")),
+    "nf": dict(vars_=["nf"], fn=_col("nf")),
+    "f32": dict(vars_=["f32"], fn=_col("f32")),
+    "center(ni)": dict(vars_=["ni"], stateful=True, fn=lambda t, d: d["ni"].to_numpy(dtype=float) - _mean(t, "ni")),
+    "scale(nf)": dict(vars_=["nf"], stateful=True,
+                      fn=lambda t, d: (d["nf"].to_numpy(dtype=float) - _mean(t, "nf")) / _sd(t, "nf")),
     "np.log(w)": dict(vars_=["w"], fn=lambda t, d: np.log(d["w"].to_numpy(dtype=float))),
     "np.exp(x)": dict(vars_=["x"], fn=lambda t, d: np.exp(d["x"].to_numpy(dtype=float))),
     "I(x ** 2)": dict(vars_=["x"], fn=lambda t, d: d["x"].to_numpy(dtype=float) ** 2),
@@ -243,6 +250,15 @@ def case_frame(fr):
     rng.shuffle(xz)
     df["xz"] = xz
     meta["xz"] = {"kind": "num"}
+    # more numeric dtypes (derived, no draws): bool, nullable Int64 / Float64, float32
+    df["bl"] = df["x"].to_numpy() > 0
+    meta["bl"] = {"kind": "bool"}
+    df["ni"] = pd.array(df["cnt"].to_numpy(), dtype="Int64")
+    meta["ni"] = {"kind": "nint"}
+    df["nf"] = pd.array(df["z"].to_numpy() * 0.5 - 1.0, dtype="Float64")
+    meta["nf"] = {"kind": "nfloat"}
+    df["f32"] = (df["w"].to_numpy() * 3.0).astype("float32")
+    meta["f32"] = {"kind": "num"}
     # a column name that a Unicode normalisation would rewrite (SUPERSCRIPT TWO -> "x2"); derived, no draws
     df["x\u00b2"] = df["x"].to_numpy() ** 2 + 1.0
     meta["x\u00b2"] = {"kind": "num"}
@@ -349,13 +365,13 @@ def _name(text):
 PROFILES = {
     # what C04 judges: numeric variables / pointwise calls and treatment coded factors
     "plain": dict(
-        num=["x", "z", "w", "cnt", "`col 1`", "x\u00b2", "np.log(w)", "I(x ** 2)", "{x * 2}", "dbl(x)", "I(x + z)",
+        num=["x", "z", "w", "cnt", "`col 1`", "x\u00b2", "bl", "ni", "nf", "f32", "np.log(w)", "I(x ** 2)", "{x * 2}", "dbl(x)", "I(x + z)",
              "shift1(z, by=w)", "np.log(np.exp(x))", "dbl(shift1(`col 1`, by=cnt))"],
         cat=["s", "h", "o", "cu", "co", "C(k)", "`c:1`", "C(s)", "T(h)", "I(s)", "tag(h)"],
         fac=["g", "g2", "s", "co", "C(k)", "cu"],
     ),
     "stateful": dict(
-        num=["x", "z", "w", "x\u00b2", "np.log(w)", "center(x)", "scale(x)", "standardize(z)", "center(np.log(w))",
+        num=["x", "z", "w", "x\u00b2", "bl", "ni", "nf", "f32", "center(ni)", "scale(nf)", "np.log(w)", "center(x)", "scale(x)", "standardize(z)", "center(np.log(w))",
              "I(center(x) ** 2)", "scale(center(z))", "bs(x, df=4)", "bs(z, df=5, degree=2)", "poly(x, 2)",
              "bs(x, knots=kn_x)", "bs(x, knots=kn_x, degree=2, intercept=True)", "binary(k)", "B(cnt)", "minmax(z)", "xz", "center(xz)", "scale(xz)",
              "bs(z, df=4, lower_bound=-10, upper_bound=20)", "poly(x, 4)",
